@@ -1,7 +1,7 @@
 package main
 
 // c16.go — C16 The system font index survives persistence, corruption and incremental refresh (R-GEN on the deserializers,
-// R-ERR). File-system histories are not applicable to static analysis.
+// R-ERR, R-LAYOUT). File-system histories are not applicable to static analysis.
 
 import (
 	"strings"
@@ -44,8 +44,8 @@ func runC16(p *Prog, r *Report) {
 	ruleErr(p, r)
 	r.Explain = append(r.Explain, "R-LAYOUT: each serialize* function of the index and its deserialize* sibling go through the same sequence of layout items — fixed-width integers (binary.BigEndian.PutUintN / UintN), single bytes, raw byte runs, nested records (a call of another writer / of its sibling reader) — with the same widths, the same constant offsets and strides (named constants folded), the same loop nesting and, where both sides name one, the same struct field. A necessary condition of the round trip; values, clamping and lengths are not decided.")
 	ruleLayout(p, r, "fontscan", fontscanPairs, []string{"systemFontsIndex.serializeToFile", "deserializeIndexFile"}, 10)
-	r.Assumptions = append(r.Assumptions, "integer overflow of offset arithmetic is not modelled", "compress/gzip and bytes.Buffer are trusted", "incremental refresh versus from-scratch scan over file-system histories is behaviour over an external mutable world and is NOT decided; writer/reader layout agreement (round trip) is NOT decided in this revision")
-	r.NotDecided = append(r.NotDecided, "round-trip equality of the index", "refresh equals rescan after any history of file-system changes")
+	r.Assumptions = append(r.Assumptions, "integer overflow of offset arithmetic is not modelled", "compress/gzip and bytes.Buffer are trusted", "incremental refresh versus from-scratch scan over file-system histories is behaviour over an external mutable world and is NOT decided; of the round trip only the writer/reader layout agreement (R-LAYOUT) is decided, not the values")
+	r.NotDecided = append(r.NotDecided, "round-trip equality of the index beyond layout agreement (values, clamping, NaN)", "refresh equals rescan after any history of file-system changes")
 }
 
 // ruleErr: errors returned by deserialize* functions are not dropped.
